@@ -1,0 +1,14 @@
+//go:build verif && amd64
+
+package blake2b
+
+import "golang.org/x/sys/cpu"
+
+// VerifHasAVX2 reports whether the AVX2 path is available on this CPU.
+func VerifHasAVX2() bool { return cpu.X86.HasAVX2 }
+
+// VerifHashBlocksAVX2 calls the assembly routine directly. It must only be
+// called when VerifHasAVX2 reports true.
+func VerifHashBlocksAVX2(outs *[4][32]byte, msgs *[4][64]byte, prefix uint64) {
+	hashBlocksAVX2(outs, msgs, prefix)
+}
